@@ -174,8 +174,9 @@ pub fn gen_c12(seed: u64, tier: Tier) -> CaseSet {
                 // two signed commitments of the leader - must be reported as equivocation
                 let equivocation_expected = (cache_mode == 1 && matches!(name, "conflicting-slice-valid" | "same-root-resigned-with-other-last-flag" | "same-root-resigned-under-other-slice-index"))
                     || (cache_mode == 2 && matches!(name, "valid" | "same-root-resigned-with-other-last-flag" | "same-root-resigned-under-other-slice-index"));
-                // expectation: 0 accept, 1 reject (without a cache hit), 3 equivocation (against a cached commitment)
-                let txt = format!("(C12 {} {} {} {} {})", cf::n(cid), w, c, cf::n(if cache_mode == 0 { expect as u64 } else if equivocation_expected { 3 } else { 2 }), v);
+                // expectation: 0 accept, 1 reject (without a cache hit; a payload at an alias position beyond the width of its
+                // tree with ANY cache), 3 equivocation (against a cached commitment)
+                let txt = format!("(C12 {} {} {} {} {})", cf::n(cid), w, c, cf::n(if cache_mode == 0 { expect as u64 } else if equivocation_expected { 3 } else if name == "short-tree-alias-index-beyond-width" { 1 } else { 2 }), v);
                 sigs.push((cid, 0, format!("shred-auth:{}:cache{}:{}", name, cache_mode, v)));
                 stats.evaluations += 1;
                 if name != "valid" && seen.insert(txt.clone()) { stats.distinct_nontrivial += 1; }
